@@ -224,7 +224,12 @@ class RecipeSourceBlock(NamedTuple):
         Requires the complete original markdown source listing (as used during
         parsing) as an argument.
         """
-        newlines = "\n" * (offset_to_line_and_column(markdown_source, self.pos)[0] - 1)
+        # NB: marko computes 'pos' on the source with "\r\n" line endings
+        # normalised to "\n".
+        newlines = "\n" * (
+            offset_to_line_and_column(markdown_source.replace("\r\n", "\n"), self.pos)[0]
+            - 1
+        )
 
         # NB: the 'pos' is the offset of the fence, not the first line of
         # fenced code.
